@@ -74,6 +74,16 @@ Proof.
 Qed.
 Print Assumptions C16_docs_aligned.
 
+(* ... and when the streams are well behaved — every store sends the requested documents it has in
+   request order (unrequested documents anywhere, documents missing, stream cut short or broken are
+   all allowed), one stream per source, request without duplicates — nothing is lost: the i-th
+   document is exactly what the i-th ID's source sent for it, and empty only if it sent nothing. *)
+Theorem C16_docs_complete : forall req streams,
+  well_behaved req streams = true ->
+  docs_complete req streams (fetch req streams) = true.
+Proof. exact fetch_complete. Qed.
+Print Assumptions C16_docs_complete.
+
 (* The hot store refuses exactly when it is mature and the range starts before its oldest
    fraction (or it holds nothing). *)
 Theorem C16_hot_refusal : forall mature oldest from,
@@ -107,6 +117,14 @@ Example C16_two_unknown_heads :
         [(0, [((5,5), 11); ((9,0), 12); ((7,0), 13)]%N); (1, [((4,4), 21); ((8,0), 22)]%N)]
   = [(((9,0)%N, 0), 12%N); (((8,0)%N, 1), 22%N); (((7,0)%N, 0), 13%N); (((6,0)%N, 1), 0%N)].
 Proof. vm_compute. reflexivity. Qed.
+
+(* the hypothesis of C16_docs_complete holds for the streams of C16_two_unknown_heads (unrequested
+   heads, a missing document), and fails for a stream that swaps two requested documents *)
+Example C16_well_behaved_witnessed :
+  well_behaved [((9,0)%N, 0); ((8,0)%N, 1); ((7,0)%N, 0); ((6,0)%N, 1)]
+        [(0, [((5,5), 11); ((9,0), 12); ((7,0), 13)]%N); (1, [((4,4), 21); ((8,0), 22)]%N)] = true
+  /\ well_behaved [((9,0)%N, 0); ((7,0)%N, 0)] [(0, [((7,0), 13); ((9,0), 12)]%N)] = false.
+Proof. split; vm_compute; reflexivity. Qed.
 
 (* ---------------------------------------------------------------- the code before 2959d55 *)
 (* DESIGN section 9 #11: two streams both starting with unrequested documents: panic *)
